@@ -70,8 +70,8 @@ PROPS["C17"] = dict(
 
 PROPS["C10"] = dict(
     engine="primsim", level="exploration",
-    quick=dict(runs=128000, workers=16, variants=["", "", "netsim:demux", ""]),
-    thorough=dict(budget_s=600, workers=16, variants=["", "netsim:demux"]),
+    quick=dict(runs=128000, workers=16, variants=["", "", "netsim:demux", "", "", "", "netsimx:demux", ""]),
+    thorough=dict(budget_s=600, workers=16, variants=["", "netsim:demux", "", "netsimx:demux"]),
     rule="one evaluation = (1) one seeded schedule of 2-4 tasks issuing ReservePort (specific and ephemeral), ReleasePort and IsPortAvailable over "
          "{IPv4,IPv6,both} x {TCP,UDP} x {wildcard,a,b} x 4 ports on one PortManager with schedule points before each lock and between check and insert, "
          "checked for linearizability against a sequential reservation-set model, plus (2) 2-12 PickEphemeralPort calls whose tester accepts one or two ports "
@@ -138,8 +138,8 @@ NET_ASSUME = ["a clean batch is evidence, not proof", "true parallel data races 
 
 PROPS["C01"] = dict(
     engine="netsim", level="exploration",
-    quick=dict(runs=24000, workers=16, stall_s=60, variants=["tcpab", "tcpab", "tcpab", "window"]),
-    thorough=dict(budget_s=900, workers=16, stall_s=120, variants=["tcpab", "tcpab", "tcpab", "window"]),
+    quick=dict(runs=24000, workers=16, stall_s=60, variants=["tcpab", "tcpab", "netsimx:tcpab", "window"]),
+    thorough=dict(budget_s=900, workers=16, stall_s=120, variants=["tcpab", "tcpab", "netsimx:tcpab", "window"]),
     rule="(three quarters of the workers) one evaluation = one seeded run of two real stacks joined by the simulated wire: 1-3 TCP connections, data both ways at once (position-keyed "
          "bytes), random write/read chunking and reader stalls, per-run swarm configuration (IPv4/IPv6, SACK per side, Reno/CUBIC, MTU 68-9000, "
          "send/receive buffers 1 KB-1 MB, initial sequence numbers placed just below 2^31/2^32 on either side), wire faults drop/duplicate/reorder/"
@@ -160,8 +160,8 @@ PROPS["C01"] = dict(
 
 PROPS["C02"] = dict(
     engine="netsim", level="exploration",
-    quick=dict(runs=16000, workers=16, stall_s=60, variants=["", "", "", "dropenum"]),
-    thorough=dict(budget_s=900, workers=16, stall_s=120, variants=["", "", "", "dropenum"]),
+    quick=dict(runs=16000, workers=16, stall_s=60, variants=["", "", "netsimx:", "dropenum"]),
+    thorough=dict(budget_s=900, workers=16, stall_s=120, variants=["", "", "netsimx:", "dropenum"]),
     rule="(three quarters of the workers) one evaluation = one seeded run of the C01 world under the statement's fault model: a bounded number (1-6) of drops of non-RST packets of the "
          "exchange (handshake, data, pure ACK, window update, FIN), no network delay (whatever is in flight arrives before the clock moves), all close "
          "orders (one-sided and simultaneous Shutdown, half-close then more data, Close with and without unread data, Close during handshake), reader "
@@ -207,9 +207,9 @@ PROPS["C13"] = dict(
 PROPS["C06"] = dict(
     engine="netsim", level="exploration",
     quick=dict(runs=48000, workers=16, stall_s=60,
-               variants=["addr", "addr", "addr", "addr", "udp", "udp", "tcpab", "tcpab", "echo", "handshake", "window", "recovery", "demux", "neigh", "hostile", "app"]),
+               variants=["addr", "addr", "addr", "netsimx:addr", "udp", "udp", "tcpab", "tcpab", "echo", "handshake", "window", "recovery", "netsimx:demux", "neigh", "hostile", "app"]),
     thorough=dict(budget_s=900, workers=16, stall_s=120,
-                  variants=["addr", "addr", "addr", "addr", "udp", "udp", "tcpab", "tcpab", "echo", "handshake", "window", "recovery", "demux", "neigh", "hostile", "app"]),
+                  variants=["addr", "addr", "addr", "netsimx:addr", "udp", "udp", "tcpab", "tcpab", "echo", "handshake", "window", "recovery", "netsimx:demux", "neigh", "hostile", "app"]),
     rule="one evaluation = one seeded run of one of eleven scenarios, each worker process driving one of them: (addr, a quarter of the workers) one real "
          "stack with three interfaces - two Ethernet-like ones needing address resolution, each either a simulated NIC or the repository's fd-based "
          "endpoint over a simulated descriptor, and a point-to-point one - two to three addresses per interface (IPv4 and IPv6) and a route table drawn "
@@ -339,8 +339,8 @@ PROPS["C14"] = dict(
 
 PROPS["C11"] = dict(
     engine="netsim", level="exploration",
-    quick=dict(runs=48000, workers=16, stall_s=60),
-    thorough=dict(budget_s=900, workers=16, stall_s=120),
+    quick=dict(runs=48000, workers=16, stall_s=60, variants=["", "", "", "netsimx:"]),
+    thorough=dict(budget_s=900, workers=16, stall_s=120, variants=["", "", "", "netsimx:"]),
     rule="one evaluation = one seeded history of 10-120 steps against one real stack with up to six UDP sockets on distinct ports (IPv4 bound to a "
          "specific address / wildcard, dual-stack IPv6 wildcard, IPv4 and IPv6 connected, unbound sender): datagrams of 0..65507 bytes (boundary and "
          "uniform lengths, every payload self-identifying) from two peers and two source ports, single arrivals, arrivals whose processing overlaps the "
@@ -362,8 +362,8 @@ PROPS["C11"] = dict(
 
 PROPS["C09"] = dict(
     engine="netsim", level="exploration",
-    quick=dict(runs=96000, workers=16, stall_s=60),
-    thorough=dict(budget_s=900, workers=16, stall_s=120),
+    quick=dict(runs=96000, workers=16, stall_s=60, variants=["", "", "", "netsimx:"]),
+    thorough=dict(budget_s=900, workers=16, stall_s=120, variants=["", "", "", "netsimx:"]),
     rule="one evaluation = one seeded history of 10-80 steps against one real stack with two NICs, three local addresses (two on NIC 1, one on NIC 2), an "
          "unassigned address, optionally promiscuous mode or AddSubnet on NIC 1, three ports and three remote (address, port) pairs: UDP sockets bound to "
          "wildcard/specific addresses or connected (optionally bound or connected through an explicit interface, or bound to the wildcard and then "
@@ -397,8 +397,8 @@ PROPS["C09"] = dict(
 
 PROPS["C12"] = dict(
     engine="netsim", level="exploration",
-    quick=dict(runs=96000, workers=16, stall_s=60),
-    thorough=dict(budget_s=900, workers=16, stall_s=120),
+    quick=dict(runs=96000, workers=16, stall_s=60, variants=["", "", "", "netsimx:"]),
+    thorough=dict(budget_s=900, workers=16, stall_s=120, variants=["", "", "", "netsimx:"]),
     rule="one evaluation = one seeded history of 10-100 steps against one real stack on an Ethernet-like link that requires address resolution (on-link "
          "neighbours plus a gateway for off-link destinations): UDP sends to resolved/unresolved next hops (the write blocks, is retried when its "
          "notification channel closes), ARP replies with the current or a new link address, arriving at once, at the 1 s retry instants, just before/"
